@@ -32,7 +32,7 @@ type Blk struct {
 	Data []byte
 }
 
-var AllKinds = []string{"raw", "cbor", "pb", "v0", "s512", "sha1", "t20", "t16", "dbl", "shasha", "id", "idsha"}
+var AllKinds = []string{"raw", "cbor", "pb", "v0", "s512", "sha1", "t20", "t16", "dbl", "shasha", "id", "idsha", "idj"}
 
 func xbytes(seed uint64, size int) []byte {
 	return NewRng(seed*0x100000001b3 + uint64(size)*7919 + 1).Bytes(size)
@@ -89,6 +89,9 @@ func MakeBlock(s BlkSpec) Blk {
 		h1 := sha256.Sum256(x)
 		data = h1[:]
 		c = cid.NewCidV1(cid.Raw, sum(data, mh.IDENTITY, -1))
+	case "idj":
+		// an inline dag-json node: an identity CID whose codec (0x0129) takes two varint bytes
+		c = cid.NewCidV1(0x0129, sum(x, mh.IDENTITY, -1))
 	case "idp":
 		// inline blocks that look alike: equal length, a long common prefix (not in AllKinds; used by
 		// generator classes that want digests of one width that agree in their leading bytes)
@@ -184,7 +187,7 @@ func GenSpec(r *Rng, seedPool int, big bool) BlkSpec {
 	default:
 		size = r.Range(0, 300)
 	}
-	if kind == "id" {
+	if kind == "id" || kind == "idj" {
 		// identity CIDs: empty, short, long enough to exceed a 40-byte index CID limit, and around the
 		// default index CID limit of 2048 bytes (the CID is 5 bytes longer than the inline data)
 		size = Pick(r, []int{0, 3, 20, 60, 100, 0, 3, 20, 60, 2041, 2043, 2044})
